@@ -62,6 +62,12 @@ pub enum Op {
     Restore(u16),
     /// `git rm --cached <path>`: a tracked file leaves the index but stays in the work tree
     RmCached(u16),
+    /// create (or edit) the sibling of an existing file whose name differs only in letter case
+    /// (`one/f1.txt` -> `one/F1.TXT`): two distinct paths on a case-sensitive file system
+    CaseVariant(u16),
+    /// (commit, path): put one path back, uncommitted, to the state it had in an earlier commit -
+    /// old bytes restored, a since-added file deleted again, a since-deleted file re-created
+    RevertTo(u16, u16),
 }
 
 pub const BIG_SIZES: [usize; 9] = [
@@ -376,6 +382,67 @@ impl Hist {
                 self.env.git_ok(&["rm", "--cached", "-q", "--", &p])?;
                 self.index.remove(&p);
                 format!("rm --cached {:?}", p)
+            }
+            Op::CaseVariant(f) => {
+                let e = self.editable();
+                if e.is_empty() {
+                    return Ok("noop".into());
+                }
+                let p = e[pick(*f, e.len())].clone();
+                let (dir, name) = match p.rsplit_once('/') {
+                    Some((d, n)) => (format!("{}/", d), n.to_string()),
+                    None => (String::new(), p.clone()),
+                };
+                let mut other = name.to_uppercase();
+                if other == name {
+                    other = name.to_lowercase();
+                }
+                if other == name || other.chars().count() != name.chars().count() {
+                    return Ok("noop".into());
+                }
+                let q = format!("{}{}", dir, other);
+                if is_sentinel(&q) {
+                    return Ok("noop".into());
+                }
+                let c = self.fresh(&q);
+                self.env.write_file(&q, &c);
+                self.work.insert(q.clone(), c);
+                if !q.is_ascii() || q.contains(' ') {
+                    self.odd_name = true;
+                }
+                format!("case variant {:?} of {:?}", q, p)
+            }
+            Op::RevertTo(k, f) => {
+                if self.commits.is_empty() {
+                    return Ok("noop".into());
+                }
+                let ci = pick(*k, self.commits.len());
+                let tree = self.commits[ci].1.clone();
+                let mut cands: Vec<String> = tree
+                    .keys()
+                    .chain(self.work.keys())
+                    .filter(|p| !is_sentinel(p) && !p.starts_with("monorail-out/") && tree.get(*p) != self.work.get(*p))
+                    .cloned()
+                    .collect();
+                cands.sort();
+                cands.dedup();
+                if cands.is_empty() {
+                    return Ok("noop".into());
+                }
+                let p = cands[pick(*f, cands.len())].clone();
+                match tree.get(&p) {
+                    Some(c) => {
+                        self.env.write_file(&p, c);
+                        self.work.insert(p.clone(), c.clone());
+                        format!("revert {:?} to its content in commit #{}", p, ci)
+                    }
+                    None => {
+                        std::fs::remove_file(self.env.path(&p)).map_err(|e| e.to_string())?;
+                        self.work.remove(&p);
+                        self.deleted = true;
+                        format!("revert {:?} to absent as in commit #{}", p, ci)
+                    }
+                }
             }
             Op::CommitAll => {
                 self.commit_all()?;
